@@ -4,6 +4,7 @@ property text and its scratch worktree; nothing from /verif)."""
 import json, sys
 pid = sys.argv[1]
 wt = sys.argv[2] if len(sys.argv) > 2 else f"/tmp/wt/{pid}"
+k1, k2 = (sys.argv[3], sys.argv[4]) if len(sys.argv) > 4 else ("1", "2")
 for l in open('/verif/properties.jsonl'):
     p = json.loads(l)
     if p['id'] == pid:
@@ -28,7 +29,7 @@ TASK. Produce TWO different, independent changes to the project's non-test sourc
  (d) needs something specific to manifest - an unusual input, a size threshold, a particular multi-step sequence or interleaving, or two cooperating sites that each look fine alone - rather than something ordinary use would expose at once.
 Make them realistic: the kind of thing a maintainer could plausibly commit (an off-by-one, the wrong side of a tie, a dropped condition, a 'harmless' optimisation or refactoring), not sabotage, and small (a few lines). The two changes should be in different functions / mechanisms.
 
-For each change k in 1,2 create {wt}/SEED/k/ containing:
+For each change k in {k1},{k2} create {wt}/SEED/k/ containing:
   - patch.diff : `git diff` against HEAD for the source change only (must apply with `git apply` on a clean checkout);
   - a demonstration: a Go test file (say where to copy it) or a small Go program, plus run.sh, which FAILS (non-zero exit) with the patch applied and PASSES without it;
   - notes.md : which part of the property it breaks, what it needs in order to manifest, and the exact commands you ran with their outcomes (build, full test suite with the patch, demo with and without).
